@@ -268,16 +268,19 @@ PROPS['C14'] = dict(
     level='other',
     technique='Verus contract proof of the real lookup_table_rotate (extended-domain rotation == per-polynomial rotation + cyclic permutation, unbounded in N, extension factor and rotation index); Kani bounded contract check of the real clear path lookup_table_set + lookup_table_rotate against the indexing formula, every rotation index symbolic',
     level_text='Mixed. Proved (unbounded): for every N >= 1, every extension factor, every k in [-2N*ext, 2^61] and every limb, lookup_table_rotate turns the extended polynomial P (coefficient m = coefficient m/ext of polynomial m%ext) into X^k * P in Z[X]/(X^(N*ext)+1), negacyclic sign included; no panic, no overflow, scratch of exactly vec_znx_rotate_assign_tmp_bytes suffices. Bounded (N = 4, extension factor 1, table lengths 2 and 4, entries symbolic): after lookup_table_set and a rotation by any index t in [0, 2N) the constant coefficient equals +-f[floor((t+drift)/step)]*scale with the negacyclic sign.',
-    level_note='lookup_table_set for extension factor > 1 is only covered through the rotation it ends with (CBMC does not finish the set path for ext >= 2); blind rotation under encryption (external products), mod_switch_2n and key distributions are undecided.',
+    level_note='lookup_table_set for extension factor > 1 is only covered through the rotation it ends with (CBMC does not finish the set path for ext >= 2); blind rotation under encryption (external products) and key distributions are undecided; mod_switch_2n is covered by bounded harnesses (10 radices on both sides of log2(2N*ext), both directions).',
     explanation=BOUNDED_EXPL,
     units=[V('lut', lemmas=['lemma_inter_rot', 'lemma_mod_scale', 'lemma_rot_no_min']),
            K('poulpy-bin-fhe', 'blind_rotation::lut::verif_kani', ['c14_lut_clear__n4_ext1_f4', 'c14_lut_clear__n4_ext1_f2'], cls='bounded', timeout=1500,
-             bound='N=4, ext=1, table length 4 / 2, base2k=4, k=3', functions=['LookupTableFactory::lookup_table_set', 'LookupTableFactory::lookup_table_rotate'])],
+             bound='N=4, ext=1, table length 4 / 2, base2k=4, k=3', functions=['LookupTableFactory::lookup_table_set', 'LookupTableFactory::lookup_table_rotate']),
+           K('poulpy-bin-fhe', 'blind_rotation::lut::verif_kani::c14_mod_switch', ['c14_mod_switch__b%d_%s' % (b, d) for b in (2, 3, 4, 5, 6, 7, 8, 10, 13, 19) for d in ('right', 'left')], cls='bounded', timeout=900,
+             bound='domain size 2N*ext = 32, 3 limbs, LWE dimension 1 (the code is coefficient-wise), radix constant per harness; limbs symbolic balanced digits',
+             functions=['blind_rotation::mod_switch_2n (both directions): nearest integer to x * 2^(log2(2N*ext)-1) for the exact torus value x of all limbs'])],
     trusted_base=VERUS_TRUST + [FMT_STUB, 'assumed std specifications of <[T]>::rotate_right / rotate_left (cyclic shift of the sequence)',
                   'HAL contract of Module::vec_znx_rotate_assign as proved for the reference implementation in units vec_znx_ring / hal_glue (dispatch through the delegate macro is syntactic)',
                   'ScratchOwned::alloc / borrow: every borrow hands out the whole arena'],
     assumptions=['Module::new_marker: these routines use only coefficient-domain operations', 'no limb coefficient equals i64::MIN (tables are normalised digits)'],
-    remainder='blind rotation under an LWE ciphertext, mod_switch_2n, key distributions, limbs above the noise floor, lookup_table_set for ext >= 2',
+    remainder='blind rotation under an LWE ciphertext (CGGI execute_* paths), key distributions, limbs above the noise floor, lookup_table_set for ext >= 2, mod_switch_2n beyond the bounded shapes',
 )
 
 PROPS['C19'] = dict(
